@@ -87,10 +87,20 @@ func (fs *FileSystemOperation) Restore() error {
 		return err
 	}
 
-	// We iterate over the diff and restore the files that have changed.
-	for path, content := range fileSystemSnapshot.GetDiff(fs.backUp.dataMD5) {
+	// We iterate over the diff and restore the files that have changed or were removed since the backup:
+	// the diff is taken on the backup (it holds the content to bring back), against the current state.
+	for path, content := range fs.backUp.GetDiff(fileSystemSnapshot.dataMD5) {
 		if err := fs.storeFileOnDisk(path, content); err != nil {
 			return err
+		}
+	}
+
+	// Files that did not exist when the backup was taken are removed.
+	for path := range fileSystemSnapshot.data {
+		if _, existed := fs.backUp.data[path]; !existed {
+			if err := fs.cleanUpFile(path); err != nil {
+				return err
+			}
 		}
 	}
 
